@@ -131,3 +131,8 @@ Definition finished (ids : list nat) (s : bstate) : bool :=
   forallb (fun i => negb (is_loc (place s i) LChecked) && negb (recheck s i) && negb (is_loc (place s i) LNew)) ids.
 
 Definition all_done (ids : list nat) (s : bstate) : bool := forallb (fun i => is_loc (place s i) LDone) ids.
+
+(* what the threads still have to do once the connection has ended: the writer fails its write or sees the latch, the
+   reader sees the closed connection, the shutdown drains, every sender finishes its call *)
+Definition finishing_schedule (ids : list nat) : list bstep :=
+  map WWriteFail ids ++ [WQuit; RExit; DDrain] ++ flat_map (fun i => [SCheck i; SEnq i; SRecheck i]) ids.
